@@ -2060,6 +2060,12 @@ impl StorageEngine {
             // Same shard - simple case
             let mut shard_guard = old_shard.write().unwrap();
             if let Some(stored_value) = shard_guard.data.remove(old_key) {
+                // The deadline travels with the value: move its index entry too
+                shard_guard.expiring_keys.remove(old_key);
+                match stored_value.metadata.expires_at {
+                    Some(expires_at) => { shard_guard.expiring_keys.insert(new_key.clone(), expires_at); }
+                    None => { shard_guard.expiring_keys.remove(&new_key); }
+                }
                 shard_guard.data.insert(new_key.clone(), stored_value);
                 shard_guard.mark_modified(old_key);
                 shard_guard.mark_modified(&new_key);
@@ -2086,6 +2092,12 @@ impl StorageEngine {
             
             // Move the value between shards
             if let Some(stored_value) = old_guard.data.remove(old_key) {
+                // The deadline travels with the value: move its index entry too
+                old_guard.expiring_keys.remove(old_key);
+                match stored_value.metadata.expires_at {
+                    Some(expires_at) => { new_guard.expiring_keys.insert(new_key.clone(), expires_at); }
+                    None => { new_guard.expiring_keys.remove(&new_key); }
+                }
                 new_guard.data.insert(new_key.clone(), stored_value);
                 old_guard.mark_modified(old_key);
                 new_guard.mark_modified(&new_key);
